@@ -545,8 +545,9 @@ def gen_case(rng, big):
         elif r < 0.58:
             emit = [[rng.choice([0, 0.2]), reply_line(c, uid[0], error=True)]]
         elif r < 0.70:
-            upd = rng.choice(['update m:p [7, {"t": 1}]', 'update x:y [7, {}]', 'update m:q [8, {"t": 1}]',
-                              'error_update m:p ["CommunicationFailed", "x", {}]', 'reply m:p {bad json'])
+            uid[0] += 1      # every line of a script is unique: outcomes are mapped back to lines by their text
+            upd = rng.choice(['update m:p [%d, {"t": 1}]', 'update x:y [%d, {}]', 'update m:q [%d, {"t": 1}]',
+                              'error_update m:p ["CommunicationFailed", "x%d", {}]', 'reply m:p {bad json %d']) % (uid[0] - 1)
             emit = [[0, upd], [rng.choice([0, 0.2]), reply_line(c, uid[0])]]
         elif r < 0.80:
             emit = []                                   # never answered
@@ -759,6 +760,50 @@ def run(ctx):
         _, obs = run_case(case, policy)
         runs.append((case, effective_schedule(obs), obs))
 
+    shrunk = {}
+
+    def flush():
+        reqs, meta = [], []
+        for case, schedule, obs in runs:
+            res.evaluations += 1
+            r = requests_for(case, obs, schedule)
+            if r is None:
+                res.count('connect-failed')
+                continue
+            reqs += r[0]
+            meta.append((case, schedule, obs, r[1]))
+        answers = ctx.driver.batch(reqs)
+        for j, (case, schedule, obs, L) in enumerate(meta):
+            res.traces += 1
+            found = assess(case, schedule, obs, L, answers[2 * j], answers[2 * j + 1], res, ctx)
+            kinds = sorted({c['out'] for c in L['callers']})
+            labs = [lb[0] for lb in L['labels']]
+            res.count('outcomes=' + '+'.join(kinds))
+            res.count('callers=%d' % len(case['callers']))
+            res.count('fine' if case.get('fine') else 'coarse')
+            for c in L['callers']:
+                res.count('outcome.' + c['out'])
+            parked = any(lb == ['txTest', True] for lb in L['labels'])
+            if parked:
+                res.count('with-parked-request')
+            if 'closeBegin' in labs and any(x in labs for x in ('closeActive', 'closePending', 'closeTxq')):
+                res.count('release-of-pending-requests')
+            if parked or 'timeout' in labs or len(kinds) > 1 or any(x in labs for x in ('closeActive', 'closePending', 'closeTxq')):
+                res.nontriv(L['labels'])
+            if len(res.samples) < 3 and parked and len(L['labels']) < 60:
+                res.samples.append({'callers': case['callers'], 'peer': case['peer'], 'schedule': schedule,
+                                    'labels': [' '.join(str(x) for x in lb) for lb in L['labels']],
+                                    'outcomes': [c['out'] for c in L['callers']]})
+            for sig, what in found:
+                if sig in shrunk:
+                    continue
+                c2, s2 = shrink(case, schedule, sig, ctx.driver)
+                shrunk[sig] = True
+                res.violations.append({'sig': sig, 'what': what, 'case': {'case': c2, 'schedule': s2},
+                                       'detail': {'original_schedule': schedule}})
+
+        del runs[:]
+
     # ---------- corpus first ----------
     cdir = os.path.join(ctx.verif, 'corpus', 'C11')
     if os.path.isdir(cdir):
@@ -769,58 +814,20 @@ def run(ctx):
     per_case = ctx.budget(260, 3000)
     for case in catalogue():
         case = {k: v for k, v in case.items() if k != 'name'}
-        n = 0
         for prefix, obs in explore_case(case, maxpre, per_case, rng):
             runs.append((case, effective_schedule(obs), obs))
-            n += 1
+            if len(runs) >= 3000:
+                flush()
     # ---------- generated cases: a few systematic schedules, then random ones ----------
     for _ in range(ctx.budget(160, 1500)):
         case = gen_case(rng, big)
-        k = 0
         for prefix, obs in explore_case(case, 1 if not big else 2, ctx.budget(6, 30), rng):
             runs.append((case, effective_schedule(obs), obs))
+            if len(runs) >= 3000:
+                flush()
         for _ in range(ctx.budget(6, 16)):
             do(case, vsched.RandomPolicy(rng, rng.choice([0.1, 0.3, 0.5])))
-    # ---------- model + monitors ----------
-    reqs, meta = [], []
-    for case, schedule, obs in runs:
-        res.evaluations += 1
-        r = requests_for(case, obs, schedule)
-        if r is None:
-            res.count('connect-failed')
-            continue
-        reqs += r[0]
-        meta.append((case, schedule, obs, r[1]))
-    answers = ctx.driver.batch(reqs)
-    shrunk = {}
-    for j, (case, schedule, obs, L) in enumerate(meta):
-        res.traces += 1
-        found = assess(case, schedule, obs, L, answers[2 * j], answers[2 * j + 1], res, ctx)
-        kinds = sorted({c['out'] for c in L['callers']})
-        labs = [lb[0] for lb in L['labels']]
-        res.count('outcomes=' + '+'.join(kinds))
-        res.count('callers=%d' % len(case['callers']))
-        res.count('fine' if case.get('fine') else 'coarse')
-        for c in L['callers']:
-            res.count('outcome.' + c['out'])
-        parked = any(lb == ['txTest', True] for lb in L['labels'])
-        if parked:
-            res.count('with-parked-request')
-        if 'closeBegin' in labs and any(x in labs for x in ('closeActive', 'closePending', 'closeTxq')):
-            res.count('release-of-pending-requests')
-        if parked or 'timeout' in labs or len(kinds) > 1 or any(x in labs for x in ('closeActive', 'closePending', 'closeTxq')):
-            res.nontriv(L['labels'])
-        if len(res.samples) < 3 and parked and len(L['labels']) < 60:
-            res.samples.append({'callers': case['callers'], 'peer': case['peer'], 'schedule': schedule,
-                                'labels': [' '.join(str(x) for x in lb) for lb in L['labels']],
-                                'outcomes': [c['out'] for c in L['callers']]})
-        for sig, what in found:
-            if sig in shrunk:
-                continue
-            c2, s2 = shrink(case, schedule, sig, ctx.driver)
-            shrunk[sig] = True
-            res.violations.append({'sig': sig, 'what': what, 'case': {'case': c2, 'schedule': s2},
-                                   'detail': {'original_schedule': schedule}})
+    flush()
     return res
 
 
